@@ -18,7 +18,8 @@ constructor signatures of the attribute classes - NOT from converter.py:
   objects back into the same nested-dict form; tree_missing / proto_diff compare.
 
 Public helpers for other checks: KINDS, gen_specs(kind, level), gen_message_attributes(kind, level), input_raises,
-build_attrs, expected_tree, attrs_tree, tree_missing.
+build_attrs, expected_tree, attrs_tree, tree_missing; field_ids / with_field / field_value / locate for
+single-field modifications.
 """
 import itertools
 
@@ -636,6 +637,111 @@ def _defaults_like(t):
     if isinstance(t, list):
         return []
     return type(t)()
+
+
+# ----------------------------------------------------------------------------------------------
+# single-field modifications of a spec (operation-sequence oracle of C10)
+#   field ids: class-level names as in spec["vals"] ("caption", "dm.url", "key.id"; "conversation" for text),
+#   "ctx.<name>" for a field of the context info, "ctx.quoted.conversation" for the body of a quoted text,
+#   "ctx" for the context info as a whole
+# ----------------------------------------------------------------------------------------------
+def field_ids(spec):
+    """[(field id, F)] of everything that can be modified on the content described by `spec`."""
+    kind = spec["kind"]
+    if kind == TEXT:
+        return [("conversation", F("conversation", STR, OPT))]
+    c = CLASSES[kind]
+    out = [(n, f) for n, f in c.all_fields()
+           if f.kind != ENUM1 and not (kind == "document" and n == "file_length")]   # alias of dm.file_length
+    if c.ctx:
+        out.append(("ctx", F("ctx", "ctx", OPT)))
+        if spec.get("ctx"):
+            out += [("ctx." + f.name, f) for f in CTX_FIELDS]
+            q = spec["ctx"].get("quoted")
+            if q and q["kind"] == TEXT:
+                out.append(("ctx.quoted.conversation", F("conversation", STR, OPT)))
+    return out
+
+
+def _copy_spec(spec):
+    import json
+    return json.loads(json.dumps(spec))
+
+
+def field_index(spec, fid):
+    """alphabet index currently assigned to fid (None = unset); for 'ctx' the context spec itself"""
+    if fid == "ctx":
+        return spec.get("ctx")
+    if fid == "ctx.quoted.conversation":
+        return spec["ctx"]["quoted"]["vals"].get("conversation")
+    if fid.startswith("ctx."):
+        return spec["ctx"]["vals"].get(fid[4:])
+    return spec["vals"].get(fid)
+
+
+def with_field(spec, fid, idx):
+    """copy of spec with fid assigned alphabet index idx (None = unset; for 'ctx': a context spec or None)"""
+    s = _copy_spec(spec)
+    if fid == "ctx":
+        s["ctx"] = _copy_spec(idx) if idx else None
+        return s
+    if fid == "ctx.quoted.conversation":
+        vals = s["ctx"]["quoted"]["vals"]
+        fid = "conversation"
+    elif fid.startswith("ctx."):
+        vals = s["ctx"]["vals"]
+        fid = fid[4:]
+    else:
+        vals = s["vals"]
+    if idx is None:
+        vals.pop(fid, None)
+    else:
+        vals[fid] = idx
+    return s
+
+
+def field_value(spec, fid):
+    """the python value `spec` gives to fid (None = unset); for 'ctx' a fresh ContextInfoAttributes or None"""
+    if fid == "ctx":
+        return build_ctx_attrs(spec["ctx"], 0) if spec.get("ctx") else None
+    if fid == "ctx.quoted.conversation":
+        return _spec_values(spec["ctx"]["quoted"], 1).get("conversation")
+    if fid.startswith("ctx."):
+        return _ctx_values(spec["ctx"], 0).get(fid[4:])
+    return _spec_values(spec, 0).get(fid)
+
+
+def locate(message_attributes, kind, fid):
+    """(attribute object, attribute name) that holds fid inside a real MessageAttributes"""
+    if kind == TEXT:
+        return message_attributes, "conversation"
+    c = CLASSES[kind]
+    a = getattr(message_attributes, c.slot)
+    host = a.downloadablemedia_attributes if c.dm else a
+    if fid == "ctx":
+        return host, "context_info"
+    if fid == "ctx.quoted.conversation":
+        return host.context_info.quoted_message, "conversation"
+    if fid.startswith("ctx."):
+        return host.context_info, fid[4:]
+    if fid.startswith("dm."):
+        return a.downloadablemedia_attributes, fid[3:]
+    if fid.startswith("key."):
+        return a.key, fid[4:]
+    return a, fid
+
+
+def owner_of(kind, fid):
+    """(class, field) used in signatures"""
+    if fid == "ctx":
+        return "context_info", "(whole)"
+    if fid == "ctx.quoted.conversation":
+        return TEXT, "conversation"
+    if fid.startswith("ctx."):
+        return "context_info", fid[4:]
+    if fid.startswith("dm."):
+        return "downloadablemedia", fid[3:]
+    return kind, fid
 
 
 # ----------------------------------------------------------------------------------------------
